@@ -166,6 +166,32 @@ func c06Scenario(maxUnconf, maxBlockTxs int, subsets [][]int, disjoint bool) {
 			verifrt.Assert(cancels == 0, "C06.cancel.only-losers-are-cancelled")
 		}
 	}
+	// a clean restart afterwards (Node.Run's saves, a new node on the same storage) does not bring a
+	// cancelled transaction back into double-spend tracking
+	if verifrt.Choose("restart-after-the-block", 2) == 1 {
+		node.blocks.Save(ctx)
+		node.txs.Save(ctx)
+		node.peers.Save(ctx)
+		k2, rerr := vkNewNode(ctx, k.store)
+		verifrt.Sig("restart", "load")
+		verifrt.Assert(rerr == nil, "C06.restart.loads")
+		if rerr == nil {
+			for _, u := range us {
+				cancelled := false
+				for _, e := range rec.events[mark:] {
+					if e.kind == "update" && e.txid == u.txid && e.state.Cancelled {
+						cancelled = true
+					}
+				}
+				if cancelled {
+					id := u.txid
+					verifrt.Sig("restart", "tracking")
+					verifrt.Assert(!k2.node.memPool.TransactionExists(&id), "C06.cancel.loser-stays-dropped-after-a-restart")
+					verifrt.Reach("C06.cancel.loser-after-restart")
+				}
+			}
+		}
+	}
 	// the block's own relevant transactions are delivered with proofs
 	for _, b := range bs {
 		seenBefore := false
